@@ -143,8 +143,9 @@ pub fn new_iset(probe: &ProbeLog) -> InstructionSet {
         Instruction::new(move |st: &mut PushState, _c: &InstructionCache| {
             // records INDEX.CURRENT of the top index (or -1) and the top INTEGER (or "none")
             let cur = st.index_stack.get(0).map(|i| i.current as i64).unwrap_or(-1);
-            let top = st.int_stack.get(0).map(|i| json!(*i)).unwrap_or(json!("none"));
-            p.ticks.lock().unwrap().push(json!({"cur": cur, "int": top}));
+            let has = st.int_stack.size() > 0;
+            let top = st.int_stack.get(0).copied().unwrap_or(0);
+            p.ticks.lock().unwrap().push(json!({"cur": cur, "has": has, "int": top}));
         }),
     );
     let p2 = probe.clone();
@@ -216,6 +217,8 @@ impl Runner {
         let mut i = 0usize;
         let acts = case["acts"].as_array().cloned().unwrap_or_default();
         let _ = self.take_ticks();
+        let mut all_ticks: Vec<Value> = vec![];
+        let mut crashed = false;
         'acts: for act in acts.iter() {
             let a = act["a"].as_str().unwrap_or("");
             match a {
@@ -223,9 +226,6 @@ impl Runner {
                     let k = if a == "steps" { act["k"].as_u64().unwrap_or(1) } else { 1 };
                     let cache = self.iset.cache();
                     for _ in 0..k {
-                        if a == "steps" && st.exec_stack.size() == 0 {
-                            break;
-                        }
                         let iset = &mut self.iset;
                         let r = catch_unwind(AssertUnwindSafe(|| PushInterpreter::step(&mut st, iset, &cache)));
                         let mut ev = json!({"id": id, "i": i, "act": {"a": "step"}});
@@ -234,34 +234,71 @@ impl Runner {
                         }
                         let ticks = self.take_ticks();
                         if !ticks.is_empty() {
+                            all_ticks.extend(ticks.iter().cloned());
                             ev["ticks"] = json!(ticks);
                         }
                         if let Some(why) = self.take_env() {
                             ev["envelope"] = json!(why);
                             ev["post"] = json!({"crash": "envelope", "msg": "left the resource envelope"});
                             writeln!(out, "{}", ev).unwrap();
-                            break 'acts;
+                            { crashed = true; break 'acts; }
                         }
                         if total_points(&st) > ENV_POINTS {
                             ev["envelope"] = json!("more than ENV_POINTS code points");
                             ev["post"] = json!({"crash": "envelope", "msg": "left the resource envelope"});
                             writeln!(out, "{}", ev).unwrap();
-                            break 'acts;
+                            { crashed = true; break 'acts; }
                         }
                         match r {
                             Ok(done) => {
                                 ev["post"] = project(&st);
                                 ev["ret"] = json!(done);
                                 writeln!(out, "{}", ev).unwrap();
+                                if done {
+                                    // the step that finds EXEC empty is recorded, then the chain ends
+                                    i += 1;
+                                    break;
+                                }
                             }
                             Err(e) => {
                                 ev["post"] = json!({"crash": "panic", "msg": panic_msg(e)});
                                 writeln!(out, "{}", ev).unwrap();
-                                break 'acts;
+                                { crashed = true; break 'acts; }
                             }
                         }
                         i += 1;
                     }
+                }
+                "run_from_start" => {
+                    // the bounded run loop on a fresh copy of the case's pre-state (RAND-free programs:
+                    // the chain of single steps recorded before is the independent accounting)
+                    let mut st2 = build(pre);
+                    let iset = &mut self.iset;
+                    let t0 = std::time::Instant::now();
+                    let r = catch_unwind(AssertUnwindSafe(|| PushInterpreter::run(&mut st2, iset)));
+                    let el = t0.elapsed().as_millis();
+                    let mut ev = json!({"id": id, "i": i, "act": act, "elapsed_ms": clamp_i32(el)});
+                    ev["run_ticks"] = json!(self.take_ticks());
+                    ev["sleeps"] = json!(self.probe.calls.swap(0, Ordering::SeqCst));
+                    if let Some(why) = self.take_env() {
+                        ev["envelope"] = json!(why);
+                        ev["post"] = json!({"crash": "envelope", "msg": "left the resource envelope"});
+                        writeln!(out, "{}", ev).unwrap();
+                        { crashed = true; break 'acts; }
+                    }
+                    match r {
+                        Ok(o) => {
+                            ev["post"] = project(&st2);
+                            ev["ret"] = json!(outcome_str(&o));
+                            writeln!(out, "{}", ev).unwrap();
+                        }
+                        Err(e) => {
+                            ev["post"] = json!({"crash": "panic", "msg": panic_msg(e)});
+                            writeln!(out, "{}", ev).unwrap();
+                            { crashed = true; break 'acts; }
+                        }
+                    }
+                    i += 1;
                 }
                 "run" => {
                     let counter = Arc::new(AtomicUsize::new(0));
@@ -280,7 +317,7 @@ impl Runner {
                         ev["envelope"] = json!(why);
                         ev["post"] = json!({"crash": "envelope", "msg": "left the resource envelope"});
                         writeln!(out, "{}", ev).unwrap();
-                        break 'acts;
+                        { crashed = true; break 'acts; }
                     }
                     match r {
                         Ok(o) => {
@@ -291,7 +328,7 @@ impl Runner {
                         Err(e) => {
                             ev["post"] = json!({"crash": "panic", "msg": panic_msg(e)});
                             writeln!(out, "{}", ev).unwrap();
-                            break 'acts;
+                            { crashed = true; break 'acts; }
                         }
                     }
                     i += 1;
@@ -312,7 +349,7 @@ impl Runner {
                         Err(e) => {
                             ev["post"] = json!({"crash": "panic", "msg": panic_msg(e)});
                             writeln!(out, "{}", ev).unwrap();
-                            break 'acts;
+                            { crashed = true; break 'acts; }
                         }
                     }
                     i += 1;
@@ -340,9 +377,14 @@ impl Runner {
                 }
                 _ => {
                     writeln!(out, "{}", json!({"id": id, "i": i, "act": act, "post": {"crash": "harness", "msg": "unknown act"}})).unwrap();
-                    break 'acts;
+                    { crashed = true; break 'acts; }
                 }
             }
+        }
+        // end-of-case summary for behaviour-level expectations (passed through, not interpreted here)
+        if !crashed && case.get("expect").is_some() {
+            writeln!(out, "{}", json!({"id": id, "i": i, "act": {"a": "end"}, "expect": case["expect"],
+                "all_ticks": all_ticks, "post": project(&st)})).unwrap();
         }
     }
 }
